@@ -3,6 +3,10 @@
   SM-NORM  on every path to a normal return of every ep_mul* routine the last write of the result is a normalisation
            (ep_norm / ep_norm_sim / ep_set_infty), a delegation to another routine of the family, or a step that keeps
            the normal form (negation, masked copy of y, copy of an operand the routine itself normalised)
+  SM-SIGN  every sibling honours the sign of each scalar parameter on every path that returns a point computed from it
+           (sign test, reduction modulo the order, delegation); see sa/py/relic_sa/expsib.py
+  OUT-RBW  no field of an output point is read before it was written on every path (the suite calls the normalisation
+           and addition routines in place, where output and input are the same object)
   SM-RED   a scalar handed to a recoder whose buffer is a fixed-size array has been reduced modulo the group order
            (bn_mod by a value from ep_curve_get_ord, or the GLV decomposition of such a value) on every path
 """
@@ -204,8 +208,12 @@ def callers_reduce(ctx, prog, fn, pvar):
 
 
 def analyse(ctx, prog, chk):
+    from .. import alias
     chk.used_program(prog)
-    return {"norm": rule_sm_norm(ctx, prog, chk), "red": rule_sm_red(ctx, prog, chk)}
+    from .. import expsib
+    return {"norm": rule_sm_norm(ctx, prog, chk), "red": rule_sm_red(ctx, prog, chk),
+            "sign": expsib.rule_sm_sign(ctx, prog, chk, family(prog), FAMILY),
+            "rbw": alias.rule_out_rbw(ctx, prog, chk, lambda fn: fn.rfile.startswith("src/ep/"), re.compile(r"^ep_t\b"))}
 
 
 def selfcheck(ctx, prog, chk):
@@ -216,3 +224,5 @@ def run(ctx, chk):
     c = analyse(ctx, ctx.program("BASE"), chk)
     chk.floor("SM-NORM", "ep_mul* bodies", c["norm"], 25)
     chk.floor("SM-RED", "scalars reaching fixed-size recoders", c["red"], 10)
+    chk.floor("SM-SIGN", "scalar parameters of the multiplication siblings", c["sign"], 30)
+    chk.floor("OUT-RBW", "output points of functions that also take an input point", c["rbw"], 50)
